@@ -304,7 +304,7 @@ def minimise(pool, u, r, cls, budget=60):
         for cand in cl.shrink_candidates(best_u["ast"]):
             if spent >= budget:
                 break
-            if not cl.valid_f(cand):
+            if not cl.valid_f(cand) or gen_defs.excluded_by(cand):
                 continue
             n = n_jobs_of_ast(cand)
             if not n or n < 2 or n > 12:
